@@ -7,9 +7,8 @@ package stream
 //@ devirtall FlowGraphNodeI => *FlowGraphNode
 //@ devirtall ConnectionEdgeI => *ConnectionEdge
 //@ devirtall FlowDirectionI => *FlowDirection
-//@ pure FlowI.GetName
-//@ pure FlowI.GetResponseDirection
-//@ pure FlowI.GetResourceManagement
+//@ devirtall FlowI => *Flow
+//@ pure FlowRepI.GetName
 //@ pure APIStreamI.GetActionsType
 //@ pure APIStreamI.GetType
 //@ pure ReqLunarAction.IsEarlyReturnType
@@ -59,7 +58,7 @@ package stream
 //@   ghostlocal cidx gmap[int]int
 //@   requires s != nil && actions != nil && actions.Request != nil && actions.Response != nil && xlen >= 0
 //@   requires typeis(node, *streamflow.FlowGraphNode) && nd(node) != nil && allocated(nd(node))
-//@   requires typeis(flow.GetResponseDirection(), *streamflow.FlowDirection) && flow.GetResponseDirection().(*streamflow.FlowDirection) != nil
+//@   requires typeis(flow, *streamflow.Flow) && flow.(*streamflow.Flow) != nil && flow.(*streamflow.Flow).response != nil && flow.(*streamflow.Flow).flowRep != nil
 //@   requires forall(n, *streamflow.FlowGraphNode, allocated(n) ==> forall(k, 0, len(n.edges), n.edges[k] != nil))
 //@   allocates ProcessorIO
 //@   modifies now, xn, xo, xp, xlen, xpar, drops, actions.Request.Actions, actions.Response.Actions
@@ -84,7 +83,7 @@ package stream
 //@   ensures[leaf] err == nil && !walks(apiStream, procIO) ==> xlen == old(xlen) + 1
 //@   ensures[followed] err == nil && walks(apiStream, procIO) ==> forall(k, 0, len(nd(node).edges), matchE(nd(node), k, procIO.Name) ==> old(xlen) < cidx[k] && cidx[k] < xlen && xp[cidx[k]] == old(xlen) && xn[cidx[k]] == nd(node).edges[k].node)
 //@   ensures[in-order] err == nil && walks(apiStream, procIO) ==> forall(k, 0, len(nd(node).edges), forall(k2, 0, k, matchE(nd(node), k, procIO.Name) && matchE(nd(node), k2, procIO.Name) ==> cidx[k2] < cidx[k]))
-//@   ensures[early-response] err == nil && early(apiStream, procIO) ==> in(nd(node).processorKey, flow.GetResponseDirection().(*streamflow.FlowDirection).nodes) && sc == box(flow.GetResponseDirection().(*streamflow.FlowDirection).nodes[nd(node).processorKey])
+//@   ensures[early-response] err == nil && early(apiStream, procIO) ==> in(nd(node).processorKey, flow.(*streamflow.Flow).response.nodes) && sc == box(flow.(*streamflow.Flow).response.nodes[nd(node).processorKey])
 //@   ensures[no-hand-over] err == nil && !early(apiStream, procIO) && !walks(apiStream, procIO) ==> sc == nil
 //@   ensures[short-circuit-action] err == nil && scReq(apiStream, procIO) ==> len(actions.Request.Actions) == old(len(actions.Request.Actions)) + 1 && actions.Request.Actions[old(len(actions.Request.Actions))] == procIO.ShortCircuit.ReqAction
 //@   ensures[short-circuit-action-res] err == nil && scRes(apiStream, procIO) ==> len(actions.Response.Actions) == old(len(actions.Response.Actions)) + 1 && actions.Response.Actions[old(len(actions.Response.Actions))] == procIO.ShortCircuit.RespAction
